@@ -31,10 +31,10 @@ def select (p : Params) (nr na : Nat) (rl al : Option (Rat × Rat)) : Except Str
   let outer := outerIndex lim0 lim1 az0 az1 p.radial_offset p.radial_sampling p.azimuthal_offset p.azimuthal_sampling
   let left := leftIndex lim0 lim1 az0 az1 p.radial_offset p.radial_sampling p.azimuthal_offset p.azimuthal_sampling
   let right := rightIndex lim0 lim1 az0 az1 p.radial_offset p.radial_sampling p.azimuthal_offset p.azimuthal_sampling
-  if rl.isSome && decide (outer > (nr : Int)) then .error "runtime_error"
+  if rl.isSome && radialExceeded inner outer left right nr na then .error "runtime_error"
   else
-    let r := if rl.isSome then pySlice inner outer nr else (0, nr)
-    let a := if al.isSome then pySlice left right na else (0, na)
+    let r := if rl.isSome then pySlice (radialLo inner outer left right nr na) (radialHi inner outer left right nr na) nr else (0, nr)
+    let a := if al.isSome then pySlice (azimuthalLo inner outer left right nr na) (azimuthalHi inner outer left right nr na) na else (0, na)
     .ok (r.1, r.2, a.1, a.2)
 
 /-- sum of `f i` for `a ≤ i < b` -/
